@@ -289,6 +289,8 @@ class _Spelling(ast.NodeTransformer):
     for f in ('body', 'orelse', 'finalbody'):
       b = getattr(n, f, None)
       if isinstance(b, list) and b and isinstance(b[0], ast.stmt):
+        b = [y for st in b for y in self._split_chain(st)]
+        b = [y for st in b for y in self._ifexp_assign(st)]
         setattr(n, f, self._flatten(b))
     return n
 
@@ -348,6 +350,79 @@ class _Spelling(ast.NodeTransformer):
                         value=n.value.right), n)
     return n
 
+  def visit_Call(self, n):
+    self.generic_visit(n)
+    # (A if c else B)(args) -> A(args) if c else B(args)
+    if isinstance(n.func, ast.IfExp):
+      import copy
+      f = n.func
+      return ast.copy_location(ast.IfExp(
+          test=f.test,
+          body=ast.copy_location(ast.Call(
+              func=f.body, args=n.args, keywords=n.keywords), n),
+          orelse=ast.copy_location(ast.Call(
+              func=f.orelse, args=copy.deepcopy(n.args),
+              keywords=copy.deepcopy(n.keywords)), n)), n)
+    return n
+
+  @staticmethod
+  def _ifexp_assign(st):
+    """x = A if c else B  ->  if c: x = A  else: x = B ;
+    return A if c else B  ->  if c: return A  else: return B"""
+    import copy
+    if isinstance(st, (ast.Assign, ast.Return)) and isinstance(
+        st.value, ast.IfExp):
+      v = st.value
+      if isinstance(st, ast.Assign):
+        a = ast.Assign(targets=st.targets, value=v.body)
+        b = ast.Assign(targets=copy.deepcopy(st.targets), value=v.orelse)
+      else:
+        a = ast.Return(value=v.body)
+        b = ast.Return(value=v.orelse)
+      ast.copy_location(a, st)
+      ast.copy_location(b, st)
+      out = []
+      for arm in (a, b):
+        out.append(_Spelling._ifexp_assign(arm))
+      return [ast.copy_location(ast.If(test=v.test, body=out[0],
+                                       orelse=out[1]), st)]
+    return [st]
+
+  @staticmethod
+  def _split_chain(st):
+    """x = f(g(x, a), b) -> x = g(x, a); x = f(x, b)  (the outer arguments
+    must not read x)"""
+    if not (isinstance(st, ast.Assign) and len(st.targets) == 1 and
+            isinstance(st.targets[0], ast.Name) and isinstance(
+                st.value, ast.Call)):
+      return [st]
+    x = st.targets[0].id
+    outer = st.value
+    if not (outer.args and isinstance(outer.args[0], ast.Call)):
+      return [st]
+    inner = outer.args[0]
+    if not (inner.args and (
+        (isinstance(inner.args[0], ast.Name) and inner.args[0].id == x) or
+        isinstance(inner.args[0], ast.Call))):
+      return [st]
+    # the chain must bottom out in x
+    cur = inner
+    while isinstance(cur, ast.Call) and cur.args:
+      cur = cur.args[0]
+    if not (isinstance(cur, ast.Name) and cur.id == x):
+      return [st]
+    rest = list(outer.args[1:]) + [k.value for k in outer.keywords]
+    if any(isinstance(m, ast.Name) and m.id == x
+           for r in rest for m in ast.walk(r)):
+      return [st]
+    if any(isinstance(m, ast.Name) and m.id == x
+           for m in ast.walk(outer.func)):
+      return [st]
+    first = ast.copy_location(ast.Assign(
+        targets=[ast.Name(id=x, ctx=ast.Store())], value=inner), st)
+    outer.args[0] = ast.copy_location(ast.Name(id=x, ctx=ast.Load()), inner)
+    return _Spelling._split_chain(first) + [st]
+
   def visit_AugAssign(self, n):
     self.generic_visit(n)
     if isinstance(n.op, ast.Add) and self._seq_display(n.value) and \
@@ -404,6 +479,40 @@ def orelse_view(fn_node):
   orelse_of.next_arm = next_arm
   orelse_of.chain = chain
   return orelse_of
+
+
+def conditional_def(fn_node, name):
+  """(test, value if true, value if false) when `name` is defined by
+  `if test: name = A  else: name = B` (the normal form of
+  `name = A if test else B`), taking the last such definition; else None"""
+  found = None
+  for st in ast.walk(fn_node):
+    if isinstance(st, ast.If) and len(st.body) == 1 and len(st.orelse) == 1 \
+        and all(isinstance(a, ast.Assign) and len(a.targets) == 1 and
+                dotted(a.targets[0]) == name
+                for a in (st.body[0], st.orelse[0])):
+      found = (st.test, st.body[0].value, st.orelse[0].value)
+    elif isinstance(st, ast.Assign) and len(st.targets) == 1 and dotted(
+        st.targets[0]) == name and isinstance(st.value, ast.IfExp):
+      found = (st.value.test, st.value.body, st.value.orelse)
+  return found
+
+
+def fold_ifexp(st):
+  """`if c: x = A  else: x = B` (the normal form) as the single statement
+  `x = A if c else B`, for evaluators that want the value as one expression;
+  other statements are returned unchanged"""
+  if isinstance(st, ast.If) and len(st.body) == 1 and len(st.orelse) == 1:
+    a, b = fold_ifexp(st.body[0]), fold_ifexp(st.orelse[0])
+    if all(isinstance(x, ast.Assign) and len(x.targets) == 1
+           for x in (a, b)) and _same_text(a.targets[0], b.targets[0]):
+      new = ast.Assign(targets=a.targets, value=ast.copy_location(ast.IfExp(
+          test=st.test, body=a.value, orelse=b.value), st), type_comment=None)
+      return ast.copy_location(new, st)
+    if all(isinstance(x, ast.Return) for x in (a, b)):
+      return ast.copy_location(ast.Return(value=ast.copy_location(ast.IfExp(
+          test=st.test, body=a.value, orelse=b.value), st)), st)
+  return st
 
 
 def expand_aug(st):
@@ -548,7 +657,7 @@ class Module(object):
     self.src = src
     self.tree = canonicalise(ast.parse(src, filename=path))
     from . import inline
-    self.tree = inline.normalise_module(name, self.tree)
+    self.tree = canonicalise(inline.normalise_module(name, self.tree))
     self.aliases = {}     # local name -> ('mod', name) | ('ext', root) | ('sym', mod, name)
     self.functions = {}
     self.classes = {}
